@@ -7,6 +7,7 @@ from ..guards import norm, call_name, const_str, isinstance_atom, known_instance
 from ..facts import Fn, CORE, assigned_from, enclosing_loops, enclosing_stmt, verdict, reaching_defs
 from ..effects import world
 from ..escape import Escapes, Origin
+from .. import guards as G
 from . import shared as S
 from .shared import fn, fn_of
 from . import helpers_rules as H
@@ -245,6 +246,13 @@ def r08_3_implicit(ctx, rid='R08.3'):
                     if not f.live(n):
                         continue
                     lst, x = norm(n.func.value), norm(n.args[0])
+                    # a constant removed from a list that is a copy of a parameter holding names from the class model
+                    # (argspec.args): whether it is present depends on the registered class, not on the document
+                    srcs = [norm(s_) for s_ in assigned_from(f, lst)] if isinstance(n.func.value, ast.Name) else []
+                    if const_str(n.args[0]) is not None and srcs and all(
+                            any(s_ in (pp, 'list(%s)' % pp, '%s.copy()' % pp, '%s[:]' % pp) for pp in fi.params) for s_ in srcs):
+                        r.ok('%s: %s.remove(%s) on a copy of a model-level name list' % (fi.qual, lst, x))
+                        continue
                     ok = _membership_guard(f, n, x, lst)
                     if not ok:
                         # the element was put there by L.add(x) / L.append(x) on every path
@@ -465,6 +473,32 @@ def r17_1_positions(ctx):
     ok = bool(rets) and all(ret.value is not None and ('find_leaves(' in g.alpha.text(ret.value) or any(
         isinstance(x, ast.Name) and x.id.startswith('<var:') for x in ast.walk(g.alpha.rewrite(ret.value)))) for ret in rets)
     r.check(ok, 'format_rec_error renders the unique leaves', g.key('renders-leaves'), g.loc(), 'format_rec_error does not include the leaves')
+    # the accumulator that is rendered receives every leaf: a whole loop over find_leaves(<error>), each leaf appended unless it is
+    # already there
+    rp0 = g.fi.params[0]
+    accs = set()
+    for ret in rets:
+        if ret.value is not None and 'find_leaves(' not in g.alpha.text(ret.value):
+            accs |= {x.id for x in ast.walk(ret.value) if isinstance(x, ast.Name) and x.id not in g.fi.params and x.id in g.alpha.multi}
+    for acc in sorted(accs):
+        fills = [c for c in g.walk() if isinstance(c, ast.Call) and isinstance(c.func, ast.Attribute) and c.func.attr in ('append', 'add')
+                 and norm(c.func.value) == acc and c.args and g.live(c)]
+        okf = False
+        for c in fills:
+            los = [lo for lo in enclosing_loops(c, g.node) if isinstance(lo, ast.For)]
+            if len(los) != 1:
+                continue
+            lo = los[0]
+            if g.alpha.text(lo.iter) != 'find_leaves(%s)' % rp0 or norm(c.args[0]) != norm(lo.target):
+                continue
+            if any(isinstance(x, (ast.Break, ast.Continue, ast.Return)) for st in lo.body for x in ast.walk(st)):
+                continue
+            gs = {G.canon_atom(b.ast, b.pol) for b in g.cfg.guard_nodes(g.nid(c)) if any(y is lo for y in S._ancestors_list(b.ast))}
+            if gs <= {('%s in %s' % (norm(lo.target), acc), False)} and all(g.cfg.dominates(g.nid(lo.iter), g.nid(ret)) for ret in rets):
+                okf = True
+        r.check(okf, 'format_rec_error: %s receives every leaf of the error tree (duplicates aside) before it is rendered' % acc,
+                g.key('collects-leaves'), g.loc(), 'the list of causes that format_rec_error renders (%s) is not filled with every leaf of '
+                'the error tree: the message can come out without any cause - and without any position' % acc)
     leaves = fn(P, 'yatiml.irecognizer:format_rec_error.find_leaves')
     lr = leaves.returns()
     rp = leaves.fi.params[0]
